@@ -8,21 +8,17 @@ Subject: the executable model `Model/QuadTree.lean` of `tsne::QuadTree` (tied to
 Quantifiers are real: every coordinate function `data`, every root cell, **every insertion order** (any list `is` of
 indices, repetitions allowed), every fuel for which the build returns, any linearly ordered field `K` (ℚ, ℝ, …).
 
-`accepted data root is` are the indices the root's containment test lets in (all of them for the default root cell).
+`accepted data root is` are the indices the root's containment test lets in (all of them for the default root cell),
+`acceptedPts data root is` their coordinates.
 
-Finding kept here as a checked refutation: `mass_and_com_refuted` (F-QT-DUPMASS) — a leaf that absorbed coincident
-points hands only its one resident down when it is subdivided, so a child cell's `cum_size` undercounts the points inside
-its box.  The full statement is therefore false of the code; `mass_and_com_partial` is what holds (no coincident points),
-`root_mass_and_com` what holds always.
+History: `mass_and_com` was false of the code until fix 348cc3a (F-QT-DUPMASS: a subdivided leaf handed only its one
+resident down, not the coincident points it had absorbed); the witness a, a, b is kept as the non-vacuity example
+`mass_witness` below and as the first line of corpus/C18/findings.case, so a regression is re-found by both.
 -/
 namespace TapkeeVerif.QuadTree
 
 variable {K : Type} [Field K] [LinearOrder K] [IsStrictOrderedRing K]
 set_option linter.unusedSectionVars false
-
-/-- the indices that pass the root's containment test, in insertion order -/
-def accepted (data : Nat → K × K) (root : Cell K) (is : List Nat) : List Nat :=
-  is.filter fun j => root.containsPoint (data j)
 
 /-- **each point exactly once; coincident points share a cell.**
     No index is stored twice, stored points have pairwise different coordinates, only inserted in-cell indices are
@@ -38,110 +34,72 @@ theorem each_point_once (data : Nat → K × K) (fuel : Nat) (root : Cell K) (is
   obtain ⟨hwf, -⟩ := buildIn_WF data fuel root is t h
   refine ⟨allIndices_nodup data t _ hwf, allIndices_pairwise data t _ hwf, ?_, ?_⟩
   · intro j hj
-    have := allIndices_sub data t _ hwf j hj
+    have := stored_accepted data fuel root is t h j hj
     exact ⟨(List.mem_filter.1 this).1, (List.mem_filter.1 this).2⟩
   · intro i hi hc
-    exact represented data t _ hwf i (List.mem_filter.2 ⟨hi, hc⟩)
+    have hp : data i ∈ acceptedPts data root is := by
+      rw [acceptedPts_eq]; exact List.mem_map_of_mem (List.mem_filter.2 ⟨hi, hc⟩)
+    exact represented data t _ hwf (data i) hp
 
 /-- `isCorrect()` returns true on every tree the constructor can build -/
 theorem isCorrect_true (data : Nat → K × K) (fuel : Nat) (root : Cell K) (is : List Nat) (t : Tree K)
     (h : buildIn data fuel root is = some t) : isCorrect data t = true :=
   isCorrect_of_WF data t _ (buildIn_WF data fuel root is t h).1
 
-/-- the root's mass and centre of mass are the count and the mean of all accepted points — coincident ones included,
-    whatever the order (`cum_size • com = Σ`) -/
+/-- **mass and centre of mass of every cell**, for every point list (coincident points included) and every insertion
+    order.  `WF data t ps` says, recursively for the cell of `t` and the list `ps` of the accepted points routed into it:
+    `cum_size = |ps|`, `cum_size • com = Σ ps` (the online-mean identity), every point of `ps` lies in the closed box, a
+    leaf's points all coincide with its resident, and the four children carry exactly the geometric routes of `ps`
+    (first child in NW, NE, SW, SE order whose closed cell contains the point). -/
+theorem mass_and_com (data : Nat → K × K) (fuel : Nat) (root : Cell K) (is : List Nat) (t : Tree K)
+    (h : buildIn data fuel root is = some t) : WF data t (acceptedPts data root is) :=
+  (buildIn_WF data fuel root is t h).1
+
+/-- … in particular at the root: mass = number of accepted points, `mass • com` = their sum -/
 theorem root_mass_and_com (data : Nat → K × K) (fuel : Nat) (root : Cell K) (is : List Nat) (t : Tree K)
     (h : buildIn data fuel root is = some t) :
-    t.cum = (accepted data root is).length ∧ MassOK data t.cum t.com (accepted data root is) := by
-  obtain ⟨hwf, -⟩ := buildIn_WF data fuel root is t h
-  cases t with
-  | leaf b cum com res =>
-    cases res with
-    | none =>
-      simp only [WF] at hwf
-      simp [accepted, hwf.1, hwf.2, Tree.cum, Tree.com, MassOK]
-    | some r =>
-      simp only [WF] at hwf
-      obtain ⟨dups, he, hcum, hmass, -⟩ := hwf
-      exact ⟨hcum, hmass⟩
-  | node b cum com nw ne sw se =>
-    simp only [WF] at hwf
-    obtain ⟨r, dups, rest, he, hcum, hmass, -⟩ := hwf
-    exact ⟨hcum, hmass⟩
+    t.cum = (accepted data root is).length ∧
+    (t.cum : K) * t.com.1 = ((accepted data root is).map fun i => (data i).1).sum ∧
+    (t.cum : K) * t.com.2 = ((accepted data root is).map fun i => (data i).2).sum := by
+  have hwf := mass_and_com data fuel root is t h
+  have hlen : (acceptedPts data root is).length = (accepted data root is).length := by
+    rw [acceptedPts_eq, List.length_map]
+  have hm : MassOK t.cum t.com (acceptedPts data root is) := by
+    cases t with
+    | leaf b cum com res =>
+      cases res with
+      | none => simp only [WF] at hwf; simp [hwf.1, hwf.2, Tree.cum, Tree.com, MassOK]
+      | some r => exact hwf.2.2.1
+    | node => exact hwf.2.1
+  refine ⟨hwf.cum_eq.trans hlen, ?_, ?_⟩
+  · rw [hm.1, acceptedPts_eq, List.map_map]; rfl
+  · rw [hm.2, acceptedPts_eq, List.map_map]; rfl
 
-/- FULL STATEMENT (false of the code, see `mass_and_com_refuted`):
-     ∀ data fuel root is t, buildIn data fuel root is = some t → ExactMass data t (accepted data root is)
-   i.e. for EVERY cell: cum_size = number of accepted points routed into it ∧ cum_size • com = their sum ∧ they lie in
-   its closed box ∧ the children's lists are the routes of the parent's list (so the children's masses add up). -/
-
-/-- **mass and centre of mass of every cell** (`ExactMass`: `cum_size` = number of points routed into the cell,
-    `cum_size • com` = their sum — the online-mean identity —, all of them inside the closed box, children = routes of
-    the parent) — for every point list without coincident points and every insertion order -/
-theorem mass_and_com_partial (data : Nat → K × K) (fuel : Nat) (root : Cell K) (is : List Nat) (t : Tree K)
-    (h : buildIn data fuel root is = some t) (hd : Distinct data (accepted data root is)) :
-    ExactMass data t (accepted data root is) :=
-  exactMass_of_distinct data t _ (buildIn_WF data fuel root is t h).1 hd
-
-/-- … and then the four children's masses add up to the parent's -/
+/-- … and the four children's masses add up to the parent's -/
 theorem children_masses_add (data : Nat → K × K) (b : Cell K) (cum : Nat) (com : K × K) (nw ne sw se : Tree K)
-    (is : List Nat) (h : ExactMass data (.node b cum com nw ne sw se) is) :
-    nw.cum + ne.cum + sw.cum + se.cum = cum := children_mass_add data b cum com nw ne sw se is h
-
-/-! #### the refutation witness (F-QT-DUPMASS): the points a, a, b in this order -/
-def dataW : Nat → Rat × Rat := fun i => if i = 2 then (-1 / 2, -1 / 2) else (1 / 2, 1 / 2)
-def rootW : Cell Rat := ⟨0, 0, 1, 1⟩
-
-/-- `cum_size` of the south-east child -/
-def seCum : Tree K → Option Nat
-  | .node _ _ _ _ _ _ se => some se.cum
-  | .leaf .. => none
-
-theorem seCum_of_exactMass (data : Nat → K × K) (t : Tree K) (is : List Nat) (h : ExactMass data t is) (c : Nat)
-    (hc : seCum t = some c) : c = (is.filter fun i => rSE t.cell (data i)).length := by
-  cases t with
-  | leaf => simp [seCum] at hc
-  | node b cum com nw ne sw se =>
-    simp only [seCum, Option.some.injEq] at hc
-    obtain ⟨-, -, -, -, -, -, -, -, -, -, m4⟩ := h
-    rw [← hc]; exact m4.cum_eq
-
-/-- the full mass statement is false of the code as it stands: after inserting a, a, b the cell that contains the two
-    coincident points has `cum_size = 1` -/
-theorem mass_and_com_refuted :
-    ¬ (∀ (data : Nat → Rat × Rat) (fuel : Nat) (root : Cell Rat) (is : List Nat) (t : Tree Rat),
-        buildIn data fuel root is = some t → ExactMass data t (accepted data root is)) := by
-  intro hall
-  have hsome : (buildIn dataW 3 rootW [0, 1, 2]).isSome = true := by decide +kernel
-  obtain ⟨t, ht⟩ := Option.isSome_iff_exists.1 hsome
-  have hm := hall dataW 3 rootW [0, 1, 2] t ht
-  have hse : (buildIn dataW 3 rootW [0, 1, 2]).bind seCum = some 1 := by decide +kernel
-  have hcell : (buildIn dataW 3 rootW [0, 1, 2]).map Tree.cell = some rootW := by
-    rw [ht]; simp [(buildIn_WF dataW 3 rootW [0, 1, 2] t ht).2]
-  rw [ht] at hse hcell
-  simp only [Option.bind_some, Option.map_some, Option.some.injEq] at hse hcell
-  have := seCum_of_exactMass dataW t _ hm 1 hse
-  rw [hcell] at this
-  have hlen : ((accepted dataW rootW [0, 1, 2]).filter fun i => rSE rootW (dataW i)).length = 2 := by
-    decide +kernel
-  omega
+    (ps : List (K × K)) (h : WF data (.node b cum com nw ne sw se) ps) :
+    nw.cum + ne.cum + sw.cum + se.cum = cum := children_mass_add data b cum com nw ne sw se ps h
 
 /-- **θ = 0**: for every point list without coincident points and every insertion order, `computeNonEdgeForces(i, 0)`
     returns exactly `(Σ_{j≠i} q²(y_i − y_j), Σ_{j≠i} q)`, `q = 1/(1+‖y_i − y_j‖²)`, over the accepted points -/
 theorem forces_theta0_exact (data : Nat → K × K) (fuel : Nat) (root : Cell K) (is : List Nat) (t : Tree K)
-    (h : buildIn data fuel root is = some t) (hd : Distinct data (accepted data root is)) (pi : Nat) :
+    (h : buildIn data fuel root is = some t) (hd : DistinctIdx data (accepted data root is)) (pi : Nat) :
     forces data 0 pi t ((0, 0), 0) = exactForces data (accepted data root is) pi :=
-  forces_zero_exact data pi t _ (buildIn_WF data fuel root is t h).1 hd
+  forces_zero_exact data fuel root is t h hd pi
 
 /-- **θ → 0**: there is a threshold `θ₀ > 0` below which the returned pair *is* the exact all-pairs pair
     (the strongest form of "the error vanishes as θ tends to zero") -/
 theorem forces_exact_below_threshold (data : Nat → K × K) (fuel : Nat) (root : Cell K) (is : List Nat) (t : Tree K)
-    (h : buildIn data fuel root is = some t) (hd : Distinct data (accepted data root is)) (hroot : 0 < root.hw)
+    (h : buildIn data fuel root is = some t) (hd : DistinctIdx data (accepted data root is)) (hroot : 0 < root.hw)
     (pi : Nat) :
     ∃ θ₀ : K, 0 < θ₀ ∧ ∀ θ, θ < θ₀ →
       forces data θ pi t ((0, 0), 0) = exactForces data (accepted data root is) pi := by
   obtain ⟨hwf, hcell⟩ := buildIn_WF data fuel root is t h
   obtain ⟨θ₀, hpos, hf⟩ := forces_below_threshold data pi t (allPos_of_WF data t _ hwf (hcell ▸ hroot))
-  exact ⟨θ₀, hpos, fun θ hθ => by rw [hf θ hθ, forces_zero_exact data pi t _ hwf hd]; rfl⟩
+  exact ⟨θ₀, hpos, fun θ hθ => by rw [hf θ hθ, forces_zero_exact data fuel root is t h hd pi]⟩
+
+/- `force_error_bound` — FULL STATEMENT, not proved (DESIGN §9): an explicit bound `C·θ²·ΣQ` on the deviation for every
+   `θ ∈ [0, 2]` and fixed geometry.  The check evaluates it with `C = 16` on every generated case (a test). -/
 
 /-- the square-free summary criterion of the model is the C++ test `std::max(hh, hw) / sqrt(D) < theta` for every
     value `s` a correct `sqrt` can return on `D > 0` (`D = 0` is the explicit IEEE branch of `useSummary`) -/
@@ -156,20 +114,18 @@ theorem order_independent_observables (data : Nat → K × K) (fuel fuel' : Nat)
     (h' : buildIn data fuel' root is' = some t') :
     t.cum = t'.cum ∧ (t.cum ≠ 0 → t.com = t'.com) ∧
     ((allIndices t).map data).Perm ((allIndices t').map data) ∧
-    (Distinct data (accepted data root is) →
+    (DistinctIdx data (accepted data root is) →
       (allIndices t).Perm (allIndices t') ∧
       ∀ pi, forces data 0 pi t ((0, 0), 0) = forces data 0 pi t' ((0, 0), 0)) := by
   have hacc : (accepted data root is).Perm (accepted data root is') := hp.filter _
-  obtain ⟨c1, m1⟩ := root_mass_and_com data fuel root is t h
-  obtain ⟨c2, m2⟩ := root_mass_and_com data fuel' root is' t' h'
+  obtain ⟨c1, a1, a2⟩ := root_mass_and_com data fuel root is t h
+  obtain ⟨c2, b1, b2⟩ := root_mass_and_com data fuel' root is' t' h'
   obtain ⟨hwf, -⟩ := buildIn_WF data fuel root is t h
   obtain ⟨hwf', -⟩ := buildIn_WF data fuel' root is' t' h'
   have hcum : t.cum = t'.cum := by rw [c1, c2, hacc.length_eq]
   refine ⟨hcum, ?_, ?_, ?_⟩
   · intro hne
     have hk : (t.cum : K) ≠ 0 := by exact_mod_cast hne
-    obtain ⟨a1, a2⟩ := m1
-    obtain ⟨b1, b2⟩ := m2
     rw [← hcum] at b1 b2
     have s1 := (hacc.map fun i => (data i).1).sum_eq
     have s2 := (hacc.map fun i => (data i).2).sum_eq
@@ -180,32 +136,34 @@ theorem order_independent_observables (data : Nat → K × K) (fuel fuel' : Nat)
       (List.pairwise_map.2 (allIndices_pairwise data t _ hwf))
     have n2 : ((allIndices t').map data).Nodup :=
       (List.pairwise_map.2 (allIndices_pairwise data t' _ hwf'))
+    have hpts : ∀ p, p ∈ acceptedPts data root is ↔ p ∈ acceptedPts data root is' := by
+      intro p; rw [acceptedPts_eq, acceptedPts_eq]; exact (hacc.map data).mem_iff
     rw [List.perm_ext_iff_of_nodup n1 n2]
     intro p
     simp only [List.mem_map]
     constructor
     · rintro ⟨j, hj, rfl⟩
-      have hin := allIndices_sub data t _ hwf j hj
-      obtain ⟨r, hr, hd, -⟩ := represented data t' _ hwf' j (hacc.subset hin)
+      have hin := stored_mem data t _ hwf j hj
+      obtain ⟨r, hr, hd, -⟩ := represented data t' _ hwf' (data j) ((hpts _).1 hin)
       exact ⟨r, hr, hd⟩
     · rintro ⟨j, hj, rfl⟩
-      have hin := allIndices_sub data t' _ hwf' j hj
-      obtain ⟨r, hr, hd, -⟩ := represented data t _ hwf j (hacc.symm.subset hin)
+      have hin := stored_mem data t' _ hwf' j hj
+      obtain ⟨r, hr, hd, -⟩ := represented data t _ hwf (data j) ((hpts _).2 hin)
       exact ⟨r, hr, hd⟩
   · intro hd
-    have hd' : Distinct data (accepted data root is') := by
-      unfold Distinct at hd ⊢
+    have hd' : DistinctIdx data (accepted data root is') := by
+      unfold DistinctIdx at hd ⊢
       exact (hacc.pairwise_iff (fun {a c} (hh : data a ≠ data c) => fun e => hh e.symm)).1 hd
-    have p1 := allIndices_perm data t _ hwf hd
-    have p2 := allIndices_perm data t' _ hwf' hd'
+    have p1 := allIndices_perm data fuel root is t h hd
+    have p2 := allIndices_perm data fuel' root is' t' h' hd'
     refine ⟨p1.trans (hacc.trans p2.symm), fun pi => ?_⟩
-    rw [forces_zero_exact data pi t _ hwf hd, forces_zero_exact data pi t' _ hwf' hd']
+    rw [forces_zero_exact data fuel root is t h hd pi, forces_zero_exact data fuel' root is' t' h' hd' pi]
     exact exactForces_perm data pi hacc
 
 /-- **termination**: `insert` never runs out of fuel once `2·max(hw,hh) < g·2^fuel`, `g` a lower bound for the coordinate
     gap of non-coincident points (the driver passes `fuelBound + 2`, the least such exponent plus two) -/
 theorem fuel_suffices (data : Nat → K × K) (g : K) (n fuel : Nat) (root : Cell K) (is : List Nat)
-    (hgap : Gap data is g) (hlev : 2 * max root.hw root.hh < g * 2 ^ n) (hn : n ≤ fuel) :
+    (hgap : Gap (is.map data) g) (hlev : 2 * max root.hw root.hh < g * 2 ^ n) (hn : n ≤ fuel) :
     (buildIn data fuel root is).isSome :=
   fillList_isSome data g n fuel hn is (emptyLeaf root) [] (WF_emptyLeaf data root) (by simpa using hgap)
     (by simpa using hlev)
@@ -219,22 +177,35 @@ theorem fuel_irrelevant (data : Nat → K × K) (fuel extra : Nat) (root : Cell 
 
 /-- over ℚ, ℝ (any Archimedean ordered field) such a fuel exists for every positive gap -/
 theorem fuel_exists [Archimedean K] (data : Nat → K × K) (g : K) (hg : 0 < g) (root : Cell K) (is : List Nat)
-    (hgap : Gap data is g) : ∃ fuel, ∀ fuel' ≥ fuel, (buildIn data fuel' root is).isSome := by
+    (hgap : Gap (is.map data) g) : ∃ fuel, ∀ fuel' ≥ fuel, (buildIn data fuel' root is).isSome := by
   obtain ⟨n, hn⟩ := exists_level (2 * max root.hw root.hh) g hg
   exact ⟨n, fun fuel' hf => fuel_suffices data g n fuel' root is hgap hn hf⟩
 
-/-! ### non-vacuity: the hypotheses are met by a concrete non-trivial instance (three distinct points, one on a cell
-    boundary, inserted in the order 2, 0, 1) -/
+/-! ### non-vacuity and the old witness -/
+def rootW : Cell Rat := ⟨0, 0, 1, 1⟩
+
+/-- the points a, a, b (F-QT-DUPMASS) -/
+def dataW : Nat → Rat × Rat := fun i => if i = 2 then (-1 / 2, -1 / 2) else (1 / 2, 1 / 2)
+
+/-- `cum_size` of the south-east child -/
+def seCum : Tree Rat → Option Nat
+  | .node _ _ _ _ _ _ se => some se.cum
+  | .leaf .. => none
+
+/-- after inserting a, a, b the cell holding the two coincident points has mass 2 (it was 1 before the fix) -/
+theorem mass_witness : (buildIn dataW 3 rootW [0, 1, 2]).bind seCum = some 2 := by decide +kernel
+
+/-- three distinct points, one on a cell boundary, inserted in the order 2, 0, 1 -/
 def dataE : Nat → Rat × Rat := fun i => if i = 0 then (0, 0) else if i = 1 then (1 / 2, 1 / 4) else (-3 / 4, 1)
 
 example : (buildIn dataE 4 rootW [2, 0, 1]).isSome = true := by decide +kernel
-example : Distinct dataE (accepted dataE rootW [2, 0, 1]) := by
-  unfold Distinct; decide +kernel
+example : DistinctIdx dataE (accepted dataE rootW [2, 0, 1]) := by
+  unfold DistinctIdx; decide +kernel
 example : (0 : Rat) < rootW.hw := by decide +kernel
-example : Gap dataE [2, 0, 1] (1 / 4) := by
-  intro a ha c hc hne
-  simp only [List.mem_cons, List.mem_nil_iff, or_false] at ha hc
-  rcases ha with rfl | rfl | rfl <;> rcases hc with rfl | rfl | rfl <;>
+example : Gap ([2, 0, 1].map dataE) (1 / 4) := by
+  intro p hp q hq hne
+  simp only [List.map_cons, List.map_nil, List.mem_cons, List.mem_nil_iff, or_false] at hp hq
+  rcases hp with rfl | rfl | rfl <;> rcases hq with rfl | rfl | rfl <;>
     first
       | exact absurd rfl hne
       | (left; decide +kernel)
